@@ -165,6 +165,10 @@ def check_type_selection(rep, prog):
         types = sorted(set(c[1][0] for s, c in _new_calls(outs, prog) if c[1]))
         rep.check(types == [want], 'C02.1c', 'PGPKey.bind', 'primary=%s binds primary=%s -> %s' % (sp, kp, types),
                   'a primary binding a subkey makes 0x18; a subkey binding its primary makes 0x19', where=fb.where, expected=want, found=types)
+        for a in sorted(set(tuple(c[1]) for s, c in _new_calls(outs, prog))):
+            rep.check(len(a) >= 4 and a[1] == 'self.key_algorithm' and a[3] == 'self.fingerprint.keyid', 'C02.1c', 'PGPKey.bind',
+                      'PGPSignature.new(%s)' % ', '.join(a), 'the new signature must name the signing key\'s own algorithm and key id',
+                      where=fb.where, expected='PGPSignature.new(<type>, self.key_algorithm, <hash>, self.fingerprint.keyid, ...)', found=list(a))
         subj = sorted(set(c[1][0] if c[1] else None for s in outs for c in s.calls if c[0] == 'self._sign'), key=str)
         rep.check(subj == ['key'], 'C02.1c', 'PGPKey.bind', 'primary=%s binds primary=%s: _sign subject %s' % (sp, kp, subj),
                   'the data signed must be the caller\'s subject (the key being bound)', where=fb.where, expected=['key'], found=subj)
